@@ -263,6 +263,10 @@ func (fv *funcVerifier) evalCall(st *State, call *ast.CallExpr) []smt.Term {
 		return fv.freshResults(st, call, im.Name())
 	}
 	// function value
+	if n, ok := fv.typeOf(call.Fun).(*types.Named); ok && n.Obj().Pkg() != nil && n.Obj().Pkg().Path() == "context" && n.Obj().Name() == "CancelFunc" {
+		fv.evalExpr(st, call.Fun)
+		return nil // context.CancelFunc: no effect on modelled state, never nil when obtained from context.With*
+	}
 	fvv := fv.evalExpr(st, call.Fun)
 	if fv.opt.NoPanic {
 		fv.assert(st, "nopanic", "nilfunc:"+fv.exprStr(call.Fun), call.Pos(), smt.Ne(fvv, smt.IntLit(0)))
@@ -572,7 +576,9 @@ func (fv *funcVerifier) evalCopy(st *State, call *ast.CallExpr) smt.Term {
 	var srcLen smt.Term
 	var elemAt func(j smt.Term) smt.Term
 	fv.instFrames(key, slArr(dst))
-	fv.instFrames(key, slArr(src))
+	if !isString(fv.typeOf(call.Args[1])) {
+		fv.instFrames(key, slArr(src))
+	}
 	m := fv.heapGet(st, key)
 	if isString(fv.typeOf(call.Args[1])) {
 		srcLen = smt.App(smt.Int, "str_len", src)
@@ -614,7 +620,7 @@ func (fv *funcVerifier) callRepo(st *State, call *ast.CallExpr, fn *types.Func) 
 	}
 	args := fv.evalArgs(st, call, sig)
 	key := FuncKey(fn)
-	if sp := fv.prog.Specs.Funcs[key]; sp != nil && (len(sp.Requires) > 0 || len(sp.Ensures) > 0 || sp.Modifies != nil || sp.Pure) {
+	if sp := fv.prog.Specs.Funcs[key]; sp != nil && (len(sp.Requires) > 0 || len(sp.Ensures) > 0 || sp.Modifies != nil || sp.Pure || len(sp.Sets) > 0) {
 		return fv.callWithSpec(st, call, fn, sp, recv, hasRecv, args)
 	}
 	// default contract
